@@ -160,6 +160,9 @@ func wlRunCase(c *wlCase, backend string, rt node.RootType, st *wlStats, maxAcce
 	if err != nil {
 		st.notServed.Add(1)
 		st.decline(err.Error(), r1.Hash.Equal(&r2.Hash), len(c.M2) == 0)
+		if !r1.Hash.Equal(&r2.Hash) {
+			add("declined", "GetWriteLog(r1, r2) for two consecutive finalized roots r1 != r2: "+err.Error(), map[string]any{"noop_overwrite": wlNoopOverwrite(c)})
+		}
 	} else {
 		var served writelog.WriteLog
 		for {
@@ -181,6 +184,9 @@ func wlRunCase(c *wlCase, backend string, rt node.RootType, st *wlStats, maxAcce
 		if err != nil {
 			st.notServed.Add(1)
 			st.decline("iterator: "+err.Error(), r1.Hash.Equal(&r2.Hash), len(c.M2) == 0)
+			if !r1.Hash.Equal(&r2.Hash) {
+				add("declined", "write log iterator for two consecutive finalized roots r1 != r2: "+err.Error(), map[string]any{"noop_overwrite": wlNoopOverwrite(c)})
+			}
 		} else {
 			st.served.Add(1)
 			t2 := mkvs.NewWithRoot(nil, ndbA, r1)
@@ -286,6 +292,29 @@ func wlReadBack(ctx context.Context, ndb dbapi.NodeDB, root node.Root, want [][2
 	return ""
 }
 
+// wlNoopOverwrite: the batch writes some key with the value it already had at r1 (and the key keeps it in r2).
+func wlNoopOverwrite(c *wlCase) bool {
+	m1 := map[string]string{}
+	for _, p := range c.M1 {
+		m1[string(p[0])] = string(p[1])
+	}
+	m2 := map[string]string{}
+	for _, p := range c.M2 {
+		m2[string(p[0])] = string(p[1])
+	}
+	for _, op := range c.Ops {
+		if op.A != "ins" {
+			continue
+		}
+		v1, in1 := m1[string(op.K)]
+		v2, in2 := m2[string(op.K)]
+		if in1 && in2 && v1 == v2 && v1 == string(op.V) {
+			return true
+		}
+	}
+	return false
+}
+
 type wlStats struct {
 	served, notServed, logDrift, applies, accepted, rejected, already atomic.Int64
 	mu                                                                sync.Mutex
@@ -357,6 +386,9 @@ func wlogReplay(args []string) int {
 					mu.Lock()
 					for _, f := range fsx {
 						cl := f.Kind + ":" + f.Backend
+						if m, ok := f.Variant.(map[string]any); ok && f.Kind == "declined" {
+							cl += fmt.Sprintf(":noop_overwrite=%v", m["noop_overwrite"])
+						}
 						classes[cl]++
 						if classes[cl] <= 3 {
 							findings = append(findings, f)
